@@ -37,7 +37,7 @@ func phaseInvs(policy string) []invFn {
 	} else {
 		libs = []invFn{checkBalloons, checkBalloonsMemory, checkBalloonsNoStaleHolders, checkRuntimeView}
 	}
-	out := []invFn{checkPhase}
+	out := []invFn{checkPhase, checkNoPushInsideRequest}
 	for _, lib := range libs {
 		lib := lib
 		out = append(out, func(e *executor, r *stepResult) *vfkit.Violation {
@@ -88,3 +88,16 @@ func TestVerifC15TA(t *testing.T)             { c15TA.run(t) }
 func TestVerifC15TAReplay(t *testing.T)       { c15TA.replay(t) }
 func TestVerifC15Balloons(t *testing.T)       { c15Bln.run(t) }
 func TestVerifC15BalloonsReplay(t *testing.T) { c15Bln.replay(t) }
+
+// checkNoPushInsideRequest: a handler that sends unsolicited updates to the
+// runtime while the runtime is still waiting for its reply blocks on the lock
+// the NRI adaptation holds for the duration of that very request; the request
+// ends only when the runtime times it out and disconnects the plugin.
+func checkNoPushInsideRequest(e *executor, r *stepResult) *vfkit.Violation {
+	inside := e.h.stub.takePushedInside()
+	if len(inside) == 0 {
+		return nil
+	}
+	return viol(c15, "no request deadlocks", "unsolicited-update-inside-request:"+r.Handler,
+		"%s: the handler called stub.UpdateContainers before returning (%v); the runtime serves that call under the lock it holds while this request is outstanding", r.Desc, inside)
+}
